@@ -229,6 +229,36 @@ pub fn check_png(c: &PngCase) -> CheckResult {
             return Err(format!("PNG pixel {} (row-major) of word {} is RGBA {:?}, expected {:?}", i, hex(c.words[i]), &bytes[4 * i..4 * i + 4], exp));
         }
     }
+    // the same surface held in borrowed storage: a slice that starts at an even and at an odd word of a larger
+    // buffer (one of the two is not 8-byte aligned, whatever the allocator does) must give the same file
+    if n <= 4096 {
+        let first = std::fs::read(&path).map_err(|e| format!("HARNESS cannot reread png: {}", e))?;
+        for off in 0..2usize {
+            let mut storage = vec![0x5a5a_5a5au32; n + 3];
+            storage[off..off + n].copy_from_slice(&c.words);
+            let bt = DrawTarget::from_backing(c.w, c.h, &mut storage[off..off + n]);
+            if let Err(e) = bt.write_png(&path) {
+                return Err(format!("write_png failed on a {}x{} surface in borrowed storage: {}", c.w, c.h, e));
+            }
+            let again = std::fs::read(&path).map_err(|e| format!("HARNESS cannot reread png: {}", e))?;
+            if again != first {
+                let file = std::fs::File::open(&path).map_err(|e| format!("HARNESS cannot reopen png: {}", e))?;
+                let mut reader = png::Decoder::new(file).read_info().map_err(|e| format!("file written from borrowed storage is not a readable PNG: {}", e))?;
+                let mut buf2 = vec![0; reader.output_buffer_size()];
+                let info2 = reader.next_frame(&mut buf2).map_err(|e| format!("PNG frame does not decode: {}", e))?;
+                let b2 = &buf2[..info2.buffer_size()];
+                let i = (0..n.min(b2.len() / 4)).find(|i| b2[4 * i..4 * i + 4] != bytes[4 * i..4 * i + 4]).unwrap_or(0);
+                return Err(format!(
+                    "the surface held in borrowed storage starting at word {} of a larger buffer gives a different PNG: pixel {} (row-major) is RGBA {:?}, from owned storage {:?}",
+                    off,
+                    i,
+                    &b2[4 * i..(4 * i + 4).min(b2.len())],
+                    &bytes[4 * i..4 * i + 4]
+                ));
+            }
+        }
+        o.class("also-written-from-borrowed-storage-at-even-and-odd-offsets");
+    }
     o.judged = n as u64;
     let mut distinct_swap_visible = 0;
     for p in &c.words {
@@ -282,7 +312,7 @@ fn png_big_strategy() -> BoxedStrategy<PngCase> {
 pub fn property(_ctx: &Ctx) -> Property {
     Property {
         id: "C19",
-        rule: "part views: sizes 0..9 x 0..9 (rarely 257..300 long or tall, also for part png) with arbitrary pixel words, arbitrary bytes written through get_data_u8_mut, arbitrary a,r,g,b for to_u32; oracle = word/byte layout model (A<<24|R<<16|G<<8|B; bytes B,G,R,A), cross-view visibility and from_vec/from_backing/into_vec/into_inner round trips (owned and borrowed backings; from_vec also with shorter vectors, with and without spare capacity, and longer ones: pixels that fit are kept, missing ones are zero). part png-large: 130..190 px square surfaces (more than 16384 pixels) and 257..300 x 257..290 ones (more than 65536) that are zero except for a few rows (premultiplied words and alpha-0 words with colour bytes), same oracle. part png: premultiplied words (alpha-0 pixels with arbitrary colour bytes) written by write_png (in two thirds of the cases while a layer group is open, empty or drawn into, or a clip and a transform are in force: the image is the surface's pixel words regardless) and decoded with the png crate; oracle = un-premultiply model floor(c*255/a), alpha unchanged, row-major RGBA8. Non-trivial: >=2 distinct pixels, w != h and pairwise different channel bytes (so a channel swap or transposition is visible); distinct by hash of the case.",
+        rule: "part views: sizes 0..9 x 0..9 (rarely 257..300 long or tall, also for part png) with arbitrary pixel words, arbitrary bytes written through get_data_u8_mut, arbitrary a,r,g,b for to_u32; oracle = word/byte layout model (A<<24|R<<16|G<<8|B; bytes B,G,R,A), cross-view visibility and from_vec/from_backing/into_vec/into_inner round trips (owned and borrowed backings; from_vec also with shorter vectors, with and without spare capacity, and longer ones: pixels that fit are kept, missing ones are zero). part png-large: 130..190 px square surfaces (more than 16384 pixels) and 257..300 x 257..290 ones (more than 65536) that are zero except for a few rows (premultiplied words and alpha-0 words with colour bytes), same oracle. part png: premultiplied words (alpha-0 pixels with arbitrary colour bytes) written by write_png (in two thirds of the cases while a layer group is open, empty or drawn into, or a clip and a transform are in force: the image is the surface's pixel words regardless) and decoded with the png crate, then written again from the same words held in a borrowed slice starting at an even and at an odd word of a larger buffer (identical file); oracle = un-premultiply model floor(c*255/a), alpha unchanged, row-major RGBA8. Non-trivial: >=2 distinct pixels, w != h and pairwise different channel bytes (so a channel swap or transposition is visible); distinct by hash of the case.",
         assumptions: vec!["little-endian target", "the png crate's decoder is trusted"],
         parts: vec![part_outside_c07("views", 60_000, 600_000, view_strategy, check_views), part("png", 20_000, 200_000, png_strategy, check_png), part("png-large", 150, 3_000, png_big_strategy, check_png)],
         min_class_fraction: vec![("views", "from_vec:short-nonzero", 0.5), ("png", "translucent", 0.5), ("png", "transparent-with-colour", 0.1), ("png-large", "more-than-65536-pixels-with-transparent-colour", 0.2)],
